@@ -108,6 +108,8 @@ def construct(B, G, n, h, a):
                 write_probe(B, G, tag + ".independent(am->ph)", nets[0], nets[1])
                 write_probe(B, G, tag + ".independent(ph->am)", nets[1], nets[0])
             # reinitialise: same shapes, fresh tape symbols, zero biases
+            for i, net in enumerate(nets):  # a trained / hand-edited state: every parameter non-zero
+                C.load_rbm(B, net, "%s.trained%d" % (tag, i))
             old = {(i, name): B.scalars(p).copy() for i, net in enumerate(nets) for name, p in net.named_parameters()}
             nlog = len(log)
             st.reinitialize_parameters()
